@@ -188,6 +188,26 @@ func (w *World) Do(o fsx.Op) (r fsx.Reply, implFail bool, mis *reffs.Mismatch) {
 			}
 		}
 		return
+	case "KEEPONLY":
+		// remove every non-directory entry of the directory except the one named
+		h, _ := w.resolve(o.H)
+		id, ok := w.Model.ByFH[fmt.Sprintf("%x", h)]
+		if !ok {
+			return
+		}
+		var names []string
+		for n, c := range w.Model.Objs[id].Children {
+			if w.Model.Objs[c].Kind != reffs.DIR && n != o.N {
+				names = append(names, n)
+			}
+		}
+		sort.Strings(names)
+		for _, n := range names {
+			if _, _, m := w.Do(fsx.Op{K: "REMOVE", H: o.H, N: n}); m != nil {
+				return r, false, m
+			}
+		}
+		return
 	case "REMOVETHIRD":
 		h, _ := w.resolve(o.H)
 		id, ok := w.Model.ByFH[fmt.Sprintf("%x", h)]
